@@ -75,9 +75,10 @@ func ChildMain(handlers map[string]Handler) bool {
 		prog.WriteAt([]byte(fmt.Sprintf("%012d", i)), 0)
 		r := call(h, buf)
 		fmt.Fprintf(res, "%d\t%s\n", i, strings.ReplaceAll(r, "\n", " "))
-		if strings.HasPrefix(r, "panic:") {
+		if strings.HasPrefix(r, "panic:") || strings.Contains(r, "canary-hang") || strings.Contains(r, "canary-failed") {
 			// a panic that escaped into the handler may have left locks held: the state of this process
-			// is no longer what production would have (it would have died); start a fresh one
+			// is no longer what production would have (it would have died); start a fresh one. The same after a canary
+			// that is no longer served: every later input would only wait for the same watchdog again
 			res.Sync()
 			os.Exit(7)
 		}
